@@ -288,7 +288,7 @@ pub open spec fn key_neutral(ev: CertAuthEvent) -> bool {
         # append_entitlement_events ends in a loop over an iterator adapter (outside the verifier); its selection of the keys to
         # request certificates for -- one `match` statement, lifted verbatim (R17) -- is verified: every pending key and every
         # certified key (new or current) whose certificate no longer matches the entitlement gets a request
-        U.stmt_fn(KEYS, 'KeyState', 'append_entitlement_events', 1, 'vx_keys_for_requests',
+        U.stmt_fn(KEYS, 'KeyState', 'append_entitlement_events', 'match self {', 'vx_keys_for_requests',
                   "<'a>(&'a self, handle: &CaHandle, rcn: ResourceClassName, entitlement: &ResourceClassEntitlements, base_repo: &'a RepoInfo, keys_for_requests0: Vec<(&'a RepoInfo, KeyIdentifier)>) -> (r: Vec<(&'a RepoInfo, KeyIdentifier)>)",
                   ghost_before='let mut keys_for_requests = keys_for_requests0;\n', tail='keys_for_requests',
                   ghost_after='''proof {
